@@ -666,6 +666,30 @@ func main() {
 			if err := x.ch.SetRunId(x.label); err != nil {
 				hx.Fatal("SetRunId: %v", err)
 			}
+			if ctr != nil && i%3 == 1 {
+				// directed: a complete snapshot continued by several segments whose names cross a power of ten (file names
+				// do not sort like offsets: "100.aof" < "95.aof"), then a reset - the per-file removal order is the walk's
+				x.maxSize = 0
+				fl := int64([]int{90, 990}[r.Intn(2)] + r.Intn(8))
+				fs := int64(4 + r.Intn(12))
+				x.todo = append(x.todo, func() { x.newSnapAt(fl, fs) })
+				x.todo = append(x.todo, func() {
+					for x.snap != nil && !x.snap.done {
+						x.stepSnap(false)
+					}
+				})
+				x.todo = append(x.todo, func() { x.newAofWriter() })
+				for k := 0; k < 4+r.Intn(3); k++ {
+					x.todo = append(x.todo, func() {
+						n := x.logSize + int64(r.Intn(3))
+						x.aofF.Feed(gen(n, func(i int64) byte { return Byte(x.hist, x.wr+i) }))
+						x.drain(x.aofF)
+						x.wr += n
+						x.op(map[string]interface{}{"op": "append", "n": n})
+					})
+				}
+				x.todo = append(x.todo, func() { x.newSnap() })
+			}
 			tr.Emit(map[string]interface{}{"ev": "Reset", "id": id, "backend": be})
 			if ctr != nil {
 				freezeMu.Lock()
